@@ -1,2 +1,745 @@
-(* C15 — stub *)
+(* C15 — proofs.  Statements are re-exported, closed by [exact], in Props/C15.v. *)
+From Coq Require Import List ZArith Bool Lia PeanoNat.
+From Coq.Strings Require Import Byte.
+Import ListNotations.
 From Zap Require Import Base.Wire C15.Model.
+Local Open Scope Z_scope.
+
+(* ------------------------------------------------------------------ lists *)
+Lemma format_stack_removelast : forall fs, format_stack fs = removelast fs.
+Proof.
+  induction fs as [|f r IH]; [reflexivity|].
+  cbn [format_stack removelast]. destruct r as [|g r']; [reflexivity|].
+  rewrite IH. reflexivity.
+Qed.
+
+Lemma skipn_app_exact : forall (A : Type) (pre us : list A), skipn (length pre) (pre ++ us) = us.
+Proof. induction pre as [|a pre IH]; intros us; cbn; auto. Qed.
+
+Lemma skipn_app_more : forall (A : Type) (pre us : list A) (k : nat),
+  skipn (length pre + k) (pre ++ us) = skipn k us.
+Proof. induction pre as [|a pre IH]; intros us k; cbn; auto. Qed.
+
+Lemma firstn_all_le : forall (A : Type) (l : list A) (n : nat), (length l <= n)%nat -> firstn n l = l.
+Proof. intros A l n H. apply firstn_all2. exact H. Qed.
+
+(* ------------------------------------------------------------------ runtime.Callers *)
+Lemma callers_length : forall skip len stk,
+  length (callers skip len stk) = Nat.min len (length (skipn (Z.to_nat skip) stk)).
+Proof. intros. unfold callers. apply firstn_length. Qed.
+
+Lemma callers_whole : forall skip len stk,
+  (length (skipn (Z.to_nat skip) stk) < len)%nat -> callers skip len stk = skipn (Z.to_nat skip) stk.
+Proof. intros skip len stk H. unfold callers. apply firstn_all_le. lia. Qed.
+
+(* ------------------------------------------------------------------ the doubling loop *)
+Lemma grow_complete : forall fuel skip stk len,
+  (1 <= len)%nat ->
+  (length (skipn (Z.to_nat skip) stk) < len * 2 ^ fuel)%nat ->
+  exists len', grow fuel skip stk len (callers skip len stk) = Some (skipn (Z.to_nat skip) stk, len')
+               /\ (len <= len')%nat.
+Proof.
+  induction fuel as [|f IH]; intros skip stk len Hlen Hfit.
+  - cbn [grow]. rewrite callers_length.
+    cbn [Nat.pow] in Hfit. rewrite Nat.mul_1_r in Hfit.
+    destruct (Nat.eqb (Nat.min len (length (skipn (Z.to_nat skip) stk))) len) eqn:E.
+    + apply Nat.eqb_eq in E. lia.
+    + exists len. split; [|lia]. rewrite callers_whole by exact Hfit. reflexivity.
+  - cbn [grow]. rewrite callers_length.
+    destruct (Nat.eqb (Nat.min len (length (skipn (Z.to_nat skip) stk))) len) eqn:E.
+    + destruct (IH skip stk (2 * len)%nat) as [len' [Hg Hle]].
+      * lia.
+      * cbn [Nat.pow] in Hfit. lia.
+      * exists len'. split; [exact Hg|lia].
+    + apply Nat.eqb_neq in E. exists len. split; [|lia].
+      rewrite callers_whole by lia. reflexivity.
+Qed.
+
+Lemma pow2_gt : forall n, (n < 2 ^ n)%nat.
+Proof. intros n. apply Nat.pow_gt_lin_r. lia. Qed.
+
+Lemma grow_fuel_enough : forall fuel skip stk len,
+  (1 <= len)%nat -> (length stk <= fuel)%nat ->
+  exists len', grow fuel skip stk len (callers skip len stk) = Some (skipn (Z.to_nat skip) stk, len')
+               /\ (len <= len')%nat.
+Proof.
+  intros fuel skip stk len Hlen Hfuel. apply grow_complete; [exact Hlen|].
+  assert (Hs : (length (skipn (Z.to_nat skip) stk) <= length stk)%nat) by (rewrite skipn_length; lia).
+  assert (Hp : (fuel < 2 ^ fuel)%nat) by apply pow2_gt.
+  assert (Hm : (1 * 2 ^ fuel <= len * 2 ^ fuel)%nat) by (apply Nat.mul_le_mono_r; exact Hlen).
+  lia.
+Qed.
+
+(* Capture(skip, Full) returns the whole stack above the skipped frames, whatever its depth
+   and whatever the size of the pooled storage it started from *)
+Lemma capture_full_complete : forall fuel skip stk storage,
+  (1 <= storage)%nat -> (length stk <= fuel)%nat ->
+  exists s', capture fuel skip Full stk storage = Some (skipn (Z.to_nat (skip + captureSelfSkip)) stk, s')
+             /\ (storage <= s')%nat.
+Proof. intros. cbn [capture]. apply grow_fuel_enough; assumption. Qed.
+
+Lemma capture_complete_thm : forall stk skip storage,
+  (1 <= storage)%nat ->
+  exists fuel, forall fuel', (fuel <= fuel')%nat ->
+    exists s', capture fuel' skip Full stk storage = Some (skipn (Z.to_nat (skip + captureSelfSkip)) stk, s')
+               /\ (storage <= s')%nat.
+Proof.
+  intros stk skip storage H. exists (length stk). intros fuel' Hf.
+  apply capture_full_complete; [exact H|exact Hf].
+Qed.
+
+(* the result does not depend on the pooled storage the capture happened to get *)
+Lemma capture_storage_indep : forall fuel skip stk s1 s2,
+  (1 <= s1)%nat -> (1 <= s2)%nat -> (length stk <= fuel)%nat ->
+  option_map fst (capture fuel skip Full stk s1) = option_map fst (capture fuel skip Full stk s2).
+Proof.
+  intros fuel skip stk s1 s2 H1 H2 Hf.
+  destruct (capture_full_complete fuel skip stk s1 H1 Hf) as [a [-> _]].
+  destruct (capture_full_complete fuel skip stk s2 H2 Hf) as [b [-> _]].
+  reflexivity.
+Qed.
+
+Lemma capture_first : forall fuel skip stk storage,
+  (1 <= storage)%nat ->
+  capture fuel skip First stk storage = Some (firstn 1 (skipn (Z.to_nat (skip + captureSelfSkip)) stk), storage).
+Proof.
+  intros fuel skip stk storage H. cbn [capture]. unfold callers.
+  replace (Nat.min 1 storage) with 1%nat by lia. reflexivity.
+Qed.
+
+(* the variants the code does not have *)
+Definition deep_stack (n : nat) : list frame := map (fun i => FU (Z.of_nat i)) (seq 0 n).
+
+Lemma capture_trunc_refuted :
+  exists stk skip, capture_trunc skip stk initStorage <> skipn (Z.to_nat (skip + captureSelfSkip)) stk.
+Proof. exists (deep_stack 70), 0. vm_compute. discriminate. Qed.
+
+Lemma grow_nogrow_diverges : forall fuel skip stk len,
+  (len <= length (skipn (Z.to_nat skip) stk))%nat ->
+  grow_nogrow fuel skip stk len (callers skip len stk) = None.
+Proof.
+  induction fuel as [|f IH]; intros skip stk len H; cbn [grow_nogrow]; rewrite callers_length;
+    replace (Nat.min len (length (skipn (Z.to_nat skip) stk))) with len by lia; rewrite Nat.eqb_refl.
+  - reflexivity.
+  - apply IH. exact H.
+Qed.
+
+(* ------------------------------------------------------------------ the pool *)
+Definition pool_ok (p : pool) : Prop := Forall (fun s => (initStorage <= s)%nat) p.
+
+Lemma pool_get_ok : forall ch p, pool_ok p ->
+  (initStorage <= fst (pool_get ch p))%nat /\ pool_ok (snd (pool_get ch p)).
+Proof.
+  intros ch p Hp. unfold pool_get. destruct ch as [i|]; [|split; [cbn; lia|exact Hp]].
+  destruct (nth_error p i) as [s|] eqn:E; [|split; [cbn; lia|exact Hp]].
+  cbn [fst snd]. split.
+  - unfold pool_ok in Hp. rewrite Forall_forall in Hp. apply Hp. eapply nth_error_In. exact E.
+  - unfold pool_ok in *. apply Forall_app. split.
+    + rewrite <- (firstn_skipn i p) in Hp. apply Forall_app in Hp. tauto.
+    + rewrite <- (firstn_skipn (S i) p) in Hp. apply Forall_app in Hp. tauto.
+Qed.
+
+Record cap_op := mkCap { c_choice : option nat; c_skip : Z; c_depth : depth; c_stk : list frame }.
+
+(* a history of captures against one pool: results, in order; None = some capture diverged *)
+Fixpoint run_caps (ops : list cap_op) (p : pool) : option (list (list frame) * pool) :=
+  match ops with
+  | [] => Some ([], p)
+  | o :: r =>
+      match pool_capture (length (c_stk o)) (c_choice o) (c_skip o) (c_depth o) (c_stk o) p with
+      | None => None
+      | Some (fs, p1) =>
+          match run_caps r p1 with
+          | None => None
+          | Some (res, p2) => Some (fs :: res, p2)
+          end
+      end
+  end.
+Definition cap_result (o : cap_op) : list frame :=
+  let rest := skipn (Z.to_nat (c_skip o + captureSelfSkip)) (c_stk o) in
+  match c_depth o with First => firstn 1 rest | Full => rest end.
+
+Lemma pool_history : forall ops p, pool_ok p ->
+  exists p', run_caps ops p = Some (map cap_result ops, p') /\ pool_ok p'.
+Proof.
+  induction ops as [|o r IH]; intros p Hp.
+  - exists p. split; [reflexivity|exact Hp].
+  - cbn [run_caps map]. unfold pool_capture.
+    destruct (pool_get_ok (c_choice o) p Hp) as [Hs Hp1].
+    destruct (pool_get (c_choice o) p) as [s p1]. cbn [fst snd] in Hs, Hp1.
+    assert (Hs1 : (1 <= s)%nat) by (unfold initStorage in Hs; lia).
+    unfold cap_result. destruct (c_depth o) eqn:Ed.
+    + rewrite capture_first by exact Hs1.
+      destruct (IH (pool_put s p1)) as [p' [Hr Hp']].
+      { unfold pool_put, pool_ok. constructor; [exact Hs|exact Hp1]. }
+      rewrite Hr. exists p'. split; [reflexivity|exact Hp'].
+    + destruct (capture_full_complete (length (c_stk o)) (c_skip o) (c_stk o) s Hs1 (le_n _)) as [s' [Hc Hle]].
+      rewrite Hc.
+      destruct (IH (pool_put s' p1)) as [p' [Hr Hp']].
+      { unfold pool_put, pool_ok. constructor; [lia|exact Hp1]. }
+      rewrite Hr. exists p'. split; [reflexivity|exact Hp'].
+Qed.
+
+(* ------------------------------------------------------------------ Logger.check *)
+Lemma expected_shift : forall w c st s (pre us : list frame),
+  0 <= s ->
+  expected w c st (s + Z.of_nat (length pre)) (pre ++ us) = expected w c st s us.
+Proof.
+  intros w c st s pre us Hs. unfold expected.
+  replace (Z.to_nat (s + Z.of_nat (length pre))) with (length pre + Z.to_nat s)%nat by lia.
+  rewrite skipn_app_more. reflexivity.
+Qed.
+
+(* what check does, for every logger state, level, stack and storage size: the frame it
+   reports is the one [callerSkip + 1] frames above check's own caller *)
+Lemma check_spec : forall fuel l lvl outer storage,
+  (1 <= storage)%nat -> (length outer + 3 <= fuel)%nat -> -1 <= callerSkip l ->
+  check fuel l lvl outer storage
+  = expected (coreEn l lvl) (addCaller l) (addStack l lvl) (callerSkip l + 1) outer.
+Proof.
+  intros fuel l lvl outer storage Hst Hfuel Hskip. unfold check, expected.
+  destruct (coreEn l lvl) eqn:Ecore; cbn [negb andb].
+  2:{ rewrite andb_true_r. destruct (lvl <? DPanicLevel); reflexivity. }
+  rewrite andb_false_r.
+  destruct (addCaller l) eqn:Ecaller; destruct (addStack l lvl) eqn:Estack; cbn [negb andb]; try reflexivity.
+  - (* caller + stack: Full *)
+    destruct (capture_full_complete fuel (callerSkip l + callerSkipOffset)
+                (FZ ZCallers :: FZ ZCapture :: FZ ZCheck :: outer) storage Hst) as [s' [Hc _]].
+    { cbn [length]. lia. }
+    rewrite Hc. unfold callerSkipOffset, captureSelfSkip.
+    replace (Z.to_nat (callerSkip l + 2 + 2)) with (S (S (S (Z.to_nat (callerSkip l + 1))))) by lia.
+    cbn [skipn].
+    destruct (skipn (Z.to_nat (callerSkip l + 1)) outer) as [|f rest]; [reflexivity|].
+    unfold drop_last. destruct rest as [|g rest']; [reflexivity|].
+    rewrite format_stack_removelast. reflexivity.
+  - (* caller only: First *)
+    rewrite capture_first by exact Hst. unfold callerSkipOffset, captureSelfSkip.
+    replace (Z.to_nat (callerSkip l + 2 + 2)) with (S (S (S (Z.to_nat (callerSkip l + 1))))) by lia.
+    cbn [skipn].
+    destruct (skipn (Z.to_nat (callerSkip l + 1)) outer) as [|f rest]; reflexivity.
+  - (* stack only: Full *)
+    destruct (capture_full_complete fuel (callerSkip l + callerSkipOffset)
+                (FZ ZCallers :: FZ ZCapture :: FZ ZCheck :: outer) storage Hst) as [s' [Hc _]].
+    { cbn [length]. lia. }
+    rewrite Hc. unfold callerSkipOffset, captureSelfSkip.
+    replace (Z.to_nat (callerSkip l + 2 + 2)) with (S (S (S (Z.to_nat (callerSkip l + 1))))) by lia.
+    cbn [skipn].
+    destruct (skipn (Z.to_nat (callerSkip l + 1)) outer) as [|f rest]; [reflexivity|].
+    unfold drop_last. destruct rest as [|g rest']; [reflexivity|].
+    rewrite format_stack_removelast. reflexivity.
+Qed.
+
+(* ------------------------------------------------------------------ options and conversions *)
+Lemma cfg_caller_app : forall a b d, cfg_caller d (a ++ b) = cfg_caller (cfg_caller d a) b.
+Proof. induction a as [|o a IH]; intros b d; [reflexivity|]. destruct o; cbn; apply IH. Qed.
+Lemma cfg_stack_app : forall a b d, cfg_stack d (a ++ b) = cfg_stack (cfg_stack d a) b.
+Proof. induction a as [|o a IH]; intros b d; [reflexivity|]. destruct o; cbn; apply IH. Qed.
+
+Lemma with_options_state : forall os l,
+  callerSkip (with_options l os) = callerSkip l + opts_skip os /\
+  addCaller (with_options l os) = cfg_caller (addCaller l) os /\
+  addStack (with_options l os) = cfg_stack (addStack l) os /\
+  coreEn (with_options l os) = coreEn l.
+Proof.
+  unfold with_options. induction os as [|o os IH]; intros l.
+  - cbn. repeat split; lia.
+  - cbn [fold_left]. destruct (IH (apply_opt l o)) as [H1 [H2 [H3 H4]]].
+    rewrite H1, H2, H3, H4. destruct o; cbn; repeat split; lia.
+Qed.
+
+Definition kind_delta (b : bool) : Z := if b then sugarSkip else 0.
+
+Lemma apply_conv_kind : forall h c, is_sugared (apply_conv h c) = conv_kind (is_sugared h) c.
+Proof. intros [l|l] [| |b|[|]|b|os| |]; reflexivity. Qed.
+
+Lemma apply_chain_kind : forall cs h, is_sugared (apply_chain h cs) = fold_left conv_kind cs (is_sugared h).
+Proof.
+  unfold apply_chain. induction cs as [|c cs IH]; intros h; [reflexivity|].
+  cbn [fold_left]. rewrite IH, apply_conv_kind. reflexivity.
+Qed.
+
+(* the state of the logger behind a handle after any chain of conversions *)
+Lemma apply_chain_state : forall cs h,
+  let h' := apply_chain h cs in
+  callerSkip (base_of h') = callerSkip (base_of h) + total_skip cs
+                            + kind_delta (is_sugared h') - kind_delta (is_sugared h) /\
+  addCaller (base_of h') = cfg_caller (addCaller (base_of h)) (chain_opts cs) /\
+  addStack (base_of h') = cfg_stack (addStack (base_of h)) (chain_opts cs) /\
+  coreEn (base_of h') = coreEn (base_of h).
+Proof.
+  unfold apply_chain. induction cs as [|c cs IH]; intros h.
+  - cbn. repeat split; lia.
+  - cbn [fold_left]. destruct (IH (apply_conv h c)) as [H1 [H2 [H3 H4]]].
+    cbn zeta. rewrite H1, H2, H3, H4. clear IH H1 H2 H3 H4.
+    unfold chain_opts. cbn [map concat total_skip]. fold (chain_opts cs).
+    rewrite cfg_caller_app, cfg_stack_app.
+    set (K := kind_delta (is_sugared (fold_left apply_conv cs (apply_conv h c)))).
+    destruct c as [| |b|b|b|os| |]; destruct h as [l|l];
+      try (destruct b); cbn [apply_conv is_sugared base_of conv_kind conv_skip conv_opts cfg_caller cfg_stack
+                             add_skip callerSkip addCaller addStack coreEn kind_delta];
+      try (destruct (with_options_state os l) as [W1 [W2 [W3 W4]]]; rewrite W1, W2, W3, W4);
+      try (destruct (with_options_state [OOther] l) as [W1 [W2 [W3 W4]]]; rewrite W1, W2, W3, W4; cbn [opts_skip cfg_caller cfg_stack]);
+      unfold sugarSkip; repeat split; try reflexivity; try lia.
+Qed.
+
+(* ------------------------------------------------------------------ the std-log bridge *)
+Definition hd_not_log (us : list frame) : bool :=
+  match us with f :: _ => negb (is_log_frame f) | [] => true end.
+
+Lemma count_log_prefix_app : forall lf us,
+  forallb is_log_frame lf = true -> hd_not_log us = true -> count_log_prefix (lf ++ us) = length lf.
+Proof.
+  induction lf as [|f lf IH]; intros us Hlf Hus.
+  - cbn [app length]. destruct us as [|u r]; [reflexivity|]. cbn in Hus |- *.
+    destruct (is_log_frame u); [discriminate|reflexivity].
+  - cbn [forallb] in Hlf. apply andb_true_iff in Hlf. destruct Hlf as [Hf Hr].
+    cbn [app count_log_prefix length]. rewrite Hf, IH by assumption. reflexivity.
+Qed.
+
+Lemma hd_not_log_firstn : forall k us, hd_not_log us = true -> hd_not_log (firstn (S k) us) = true.
+Proof. intros k [|u r] H; [reflexivity|exact H]. Qed.
+
+Lemma seen_log_frames : forall lf us,
+  forallb is_log_frame lf = true -> (length lf < stdLogScan)%nat -> hd_not_log us = true ->
+  count_log_prefix (callers 4 stdLogScan
+     (FZ ZCallers :: FZ ZStdDepth :: FZ ZStdClosure :: FZ ZWriterWrite :: lf ++ us)) = length lf.
+Proof.
+  intros lf us Hlf Hlen Hus. unfold callers.
+  replace (Z.to_nat 4) with 4%nat by reflexivity. cbn [skipn].
+  rewrite firstn_app. rewrite (firstn_all_le _ lf) by lia.
+  destruct (stdLogScan - length lf)%nat as [|k] eqn:E; [lia|].
+  apply count_log_prefix_app; [exact Hlf|]. apply hd_not_log_firstn. exact Hus.
+Qed.
+
+(* for ANY chain of log-package frames above loggerWriter.Write (fewer than the 16 scanned) *)
+Lemma log_std_spec : forall fuel l lv lf us storage,
+  (1 <= storage)%nat -> (length lf + length us + 6 <= fuel)%nat ->
+  forallb is_log_frame lf = true -> (length lf < stdLogScan)%nat -> hd_not_log us = true ->
+  0 <= callerSkip l ->
+  log_std fuel l lv lf us storage = expected (coreEn l lv) (addCaller l) (addStack l lv) (callerSkip l) us.
+Proof.
+  intros fuel l lv lf us storage Hst Hfuel Hlf Hlen Hus Hskip. unfold log_std.
+  rewrite seen_log_frames by assumption.
+  set (extra := Z.of_nat (length lf) - stdLogDefaultDepth).
+  set (l1 := with_options l [OAddCallerSkip (stdLogDefaultDepth + loggerWriterDepth)]).
+  set (l2 := if extra =? 0 then l1 else with_options l1 [OAddCallerSkip extra]).
+  assert (Hl2 : callerSkip l2 = callerSkip l + 2 + Z.of_nat (length lf)
+                /\ addCaller l2 = addCaller l /\ addStack l2 = addStack l /\ coreEn l2 = coreEn l).
+  { unfold l2. destruct (extra =? 0) eqn:E.
+    - apply Z.eqb_eq in E. unfold l1, extra, stdLogDefaultDepth, loggerWriterDepth in *. cbn. repeat split. lia.
+    - unfold l1, extra, stdLogDefaultDepth, loggerWriterDepth. cbn. repeat split. lia. }
+  destruct Hl2 as [S1 [S2 [S3 S4]]].
+  rewrite check_spec.
+  - rewrite S1, S2, S3, S4.
+    replace ([FZ (ZLoggerM 7); FZ ZStdClosure; FZ ZWriterWrite] ++ lf ++ us)
+      with (([FZ (ZLoggerM 7); FZ ZStdClosure; FZ ZWriterWrite] ++ lf) ++ us) by (rewrite <- app_assoc; reflexivity).
+    replace (callerSkip l + 2 + Z.of_nat (length lf) + 1)
+      with (callerSkip l + Z.of_nat (length ([FZ (ZLoggerM 7); FZ ZStdClosure; FZ ZWriterWrite] ++ lf))).
+    + apply expected_shift. exact Hskip.
+    + rewrite app_length. cbn [length]. lia.
+  - exact Hst.
+  - rewrite !app_length. cbn [length]. lia.
+  - lia.
+Qed.
+
+Lemma std_frames_ok : forall c p,
+  forallb is_log_frame (std_frames c p) = true /\ (length (std_frames c p) < stdLogScan)%nat
+  /\ (length (std_frames c p) <= 3)%nat.
+Proof.
+  intros c p. unfold std_frames, stdLogScan.
+  destruct p as [|[|[|[|p']]]]; try (cbn; repeat split; lia).
+  destruct (c <? 2)%nat; cbn; repeat split; lia.
+Qed.
+
+(* ------------------------------------------------------------------ every front end, every chain *)
+Lemma log_via_spec : forall fuel core cs f lvl us storage,
+  fe_sugared f = chain_kind cs -> 0 <= total_skip cs -> (1 <= storage)%nat ->
+  (length us + 12 <= fuel)%nat -> hd_not_log us = true ->
+  log_via fuel f (apply_chain (HL (new_logger core)) cs) lvl us storage = expected_zap core cs f lvl us.
+Proof.
+  intros fuel core cs f lvl us storage Hkind Htot Hst Hfuel Hus.
+  pose proof (apply_chain_kind cs (HL (new_logger core))) as Hk.
+  destruct (apply_chain_state cs (HL (new_logger core))) as [H1 [H2 [H3 H4]]].
+  cbn zeta in H1. cbn [is_sugared base_of new_logger callerSkip addCaller addStack coreEn] in Hk, H1, H2, H3, H4.
+  fold (chain_kind cs) in Hk. rewrite Hk in H1. rewrite <- Hkind in Hk, H1.
+  unfold expected_zap, log_via, log_via_gen.
+  destruct (apply_chain (HL (new_logger core)) cs) as [l|l]; cbn [is_sugared base_of] in Hk, H1, H2, H3, H4;
+    destruct f as [m|fam m|c p]; cbn [fe_sugared] in Hk, H1; try discriminate;
+    cbn [kind_delta] in H1; unfold sugarSkip in H1.
+  - (* *Logger method *)
+    rewrite check_spec; [|exact Hst|rewrite app_length; cbn [fe_outer length]; lia|lia].
+    rewrite H1, H2, H3, H4. cbn [fe_outer].
+    replace (0 + total_skip cs + 0 - 0 + 1) with (total_skip cs + Z.of_nat (length [FZ (ZLoggerM m)])) by (cbn [length]; lia).
+    apply expected_shift. exact Htot.
+  - (* std-log bridge *)
+    destruct (std_frames_ok c p) as [F1 [F2 F3]].
+    rewrite log_std_spec; [|exact Hst|lia|exact F1|exact F2|exact Hus|lia].
+    rewrite H1, H2, H3, H4. f_equal. lia.
+  - (* *SugaredLogger method *)
+    destruct ((fe_level (FeSugar fam m) lvl <? DPanicLevel) && negb (coreEn l (fe_level (FeSugar fam m) lvl))) eqn:G.
+    + apply andb_true_iff in G. destruct G as [_ G]. apply negb_true_iff in G.
+      rewrite H4 in G. unfold expected. rewrite G. reflexivity.
+    + rewrite check_spec; [|exact Hst|rewrite app_length; cbn [fe_outer length]; lia|lia].
+      rewrite H1, H2, H3, H4. cbn [fe_outer].
+      replace (0 + total_skip cs + 2 - 0 + 1)
+        with (total_skip cs + Z.of_nat (length [FZ (ZLoggerM 8); FZ (ZSugarLog (Nat.eqb fam 3)); FZ (ZSugarM fam m)]))
+        by (cbn [length]; lia).
+      apply expected_shift. exact Htot.
+Qed.
+
+(* ------------------------------------------------------------------ zapslog *)
+Lemma hcfg_fold : forall os h,
+  s_callerSkip (fold_left apply_hopt os h) = s_callerSkip h + hopts_skip os /\
+  s_addCaller (fold_left apply_hopt os h) = hcfg_caller (s_addCaller h) os /\
+  s_addStackAt (fold_left apply_hopt os h) = hcfg_stack (s_addStackAt h) os /\
+  s_coreEn (fold_left apply_hopt os h) = s_coreEn h.
+Proof.
+  induction os as [|o os IH]; intros h.
+  - cbn. repeat split; lia.
+  - cbn [fold_left]. destruct (IH (apply_hopt h o)) as [H1 [H2 [H3 H4]]].
+    rewrite H1, H2, H3, H4. destruct o; cbn; repeat split; lia.
+Qed.
+
+Lemma slog_spec : forall fuel core os m slvl us storage,
+  0 <= hopts_skip os -> (1 <= storage)%nat -> (length us + 8 <= fuel)%nat ->
+  slog_log slog_handle fuel (new_handler core os) m slvl us storage = expected_slog core os slvl us.
+Proof.
+  intros fuel core os m slvl us storage Hskip Hst Hfuel.
+  unfold new_handler.
+  destruct (hcfg_fold os {| s_addCaller := false; s_addStackAt := 8; s_callerSkip := 0; s_coreEn := core |})
+    as [H1 [H2 [H3 H4]]].
+  cbn [s_callerSkip s_addCaller s_addStackAt s_coreEn] in H1, H2, H3, H4.
+  set (h := fold_left apply_hopt os _) in *.
+  unfold slog_log, slog_handle, expected_slog. rewrite H4.
+  destruct (core (convertSlogLevel slvl)); cbn [negb]; [|reflexivity].
+  rewrite H1, H2, H3. replace (0 + hopts_skip os) with (hopts_skip os) by lia.
+  set (k := hopts_skip os) in *.
+  (* the stack trace *)
+  assert (Htake : take fuel (slogHandleDepth + k) (FZ ZSlogHandle :: FZ ZSlogLog :: FZ (ZSlogM m) :: us) storage
+                  = Some (drop_last (skipn (Z.to_nat k) us))).
+  { unfold take.
+    destruct (capture_full_complete fuel (slogHandleDepth + k + 1)
+               (FZ ZCallers :: FZ ZCapture :: FZ ZTake :: FZ ZSlogHandle :: FZ ZSlogLog :: FZ (ZSlogM m) :: us)
+               storage Hst) as [s' [Hc _]].
+    { cbn [length]. lia. }
+    rewrite Hc. unfold slogHandleDepth, captureSelfSkip.
+    replace (Z.to_nat (3 + k + 1 + 2)) with (S (S (S (S (S (S (Z.to_nat k))))))) by lia.
+    cbn [skipn]. rewrite format_stack_removelast. reflexivity. }
+  rewrite Htake.
+  (* the caller *)
+  assert (Hcaller :
+    match hd_error (callers 3 1 (FZ ZCallers :: FZ ZSlogLog :: FZ (ZSlogM m) :: us)) with
+    | None => None
+    | Some f =>
+        if negb (hcfg_caller false os) then None
+        else if k =? 0 then Some f
+        else match capture fuel (slogHandleDepth + k) First
+                     (FZ ZCallers :: FZ ZCapture :: FZ ZSlogHandle :: FZ ZSlogLog :: FZ (ZSlogM m) :: us) storage with
+             | Some (f' :: _, _) => Some f'
+             | _ => None
+             end
+    end = (if hcfg_caller false os then hd_error (skipn (Z.to_nat k) us) else None)).
+  { unfold callers. replace (Z.to_nat 3) with 3%nat by reflexivity. cbn [skipn].
+    destruct us as [|u r].
+    - cbn [firstn hd_error]. rewrite skipn_nil. destruct (hcfg_caller false os); reflexivity.
+    - cbn [firstn hd_error]. destruct (hcfg_caller false os); cbn [negb]; [|reflexivity].
+      destruct (k =? 0) eqn:E.
+      + apply Z.eqb_eq in E. rewrite E. reflexivity.
+      + rewrite capture_first by exact Hst. unfold slogHandleDepth, captureSelfSkip.
+        replace (Z.to_nat (3 + k + 2)) with (S (S (S (S (S (Z.to_nat k)))))) by lia.
+        cbn [skipn]. destruct (skipn (Z.to_nat k) (u :: r)) as [|f' r']; reflexivity. }
+  rewrite Hcaller.
+  destruct (hcfg_stack 8 os <=? slvl); reflexivity.
+Qed.
+
+Lemma hd_skipn_nth : forall (A : Type) (k : nat) (l : list A), hd_error (skipn k l) = nth_error l k.
+Proof. induction k as [|k IH]; intros [|a l]; cbn; auto. Qed.
+
+(* ------------------------------------------------------------------ corollaries in the property's words *)
+Definition caller_of (o : outcome) : option frame := match o with Entry e => e_caller e | _ => None end.
+Definition stack_of (o : outcome) : list frame := match o with Entry e => e_stack e | _ => [] end.
+Definition is_entry (o : outcome) : bool := match o with Entry _ => true | _ => false end.
+
+Definition cfg_caller_on (cs : list conv) : bool := cfg_caller false (chain_opts cs).
+Definition cfg_stack_on (cs : list conv) (lv : level) : bool := cfg_stack (en_level (FatalLevel + 1)) (chain_opts cs) lv.
+
+Section Corollaries.
+  Variables (fuel : nat) (core : enabler) (cs : list conv) (f : fe) (lvl : level) (us : list frame) (storage : nat).
+  Hypothesis Hkind : fe_sugared f = chain_kind cs.
+  Hypothesis Htot : 0 <= total_skip cs.
+  Hypothesis Hst : (1 <= storage)%nat.
+  Hypothesis Hfuel : (length us + 12 <= fuel)%nat.
+  Hypothesis Hus : hd_not_log us = true.
+  Let out := log_via fuel f (apply_chain (HL (new_logger core)) cs) lvl us storage.
+  Let lv := fe_level f lvl.
+
+  Lemma out_eq : out = expected_zap core cs f lvl us.
+  Proof. apply log_via_spec; assumption. Qed.
+
+  (* an entry is produced exactly when the core accepts the level *)
+  Lemma written_iff : is_entry out = core lv.
+  Proof.
+    rewrite out_eq. unfold expected_zap, expected. fold lv.
+    destruct (core lv); cbn [negb]; [|reflexivity].
+    destruct (negb _ && negb _); [reflexivity|].
+    destruct (skipn _ us); reflexivity.
+  Qed.
+
+  (* the reported frame is the user's frame moved outward by exactly the configured skip *)
+  Lemma frame_thm : core lv = true -> cfg_caller_on cs = true ->
+    caller_of out = nth_error us (Z.to_nat (total_skip cs)).
+  Proof.
+    intros Hc Hon. rewrite out_eq. unfold expected_zap, expected. fold lv.
+    unfold cfg_caller_on in Hon. rewrite Hc, Hon. cbn [negb andb].
+    rewrite <- hd_skipn_nth.
+    destruct (skipn (Z.to_nat (total_skip cs)) us); reflexivity.
+  Qed.
+
+  (* no caller annotation unless enabled *)
+  Lemma caller_off_thm : cfg_caller_on cs = false -> caller_of out = None.
+  Proof.
+    intros Hoff. rewrite out_eq. unfold expected_zap, expected. fold lv.
+    unfold cfg_caller_on in Hoff. rewrite Hoff.
+    destruct (core lv); cbn [negb andb]; [|reflexivity].
+    destruct (negb _); [reflexivity|]. destruct (skipn _ us); reflexivity.
+  Qed.
+
+  (* the trace: present exactly for the levels configured; starts at the reported frame;
+     runs to the end of the stack, minus the final (runtime) frame *)
+  Lemma stack_levels_thm : core lv = true -> (Z.to_nat (total_skip cs) < length us)%nat ->
+    (stack_of out <> [] <-> cfg_stack_on cs lv = true).
+  Proof.
+    intros Hc Hlen. rewrite out_eq. unfold expected_zap, expected. fold lv. unfold cfg_stack_on.
+    rewrite Hc. cbn [negb].
+    destruct (skipn (Z.to_nat (total_skip cs)) us) as [|u r] eqn:E.
+    { apply (f_equal (@length frame)) in E. rewrite skipn_length in E. cbn in E. lia. }
+    destruct (cfg_caller false (chain_opts cs)); destruct (cfg_stack _ _ lv); cbn [negb andb stack_of e_stack];
+      split; intros H; try discriminate; try congruence.
+  Qed.
+
+  Lemma stack_complete_thm : core lv = true -> cfg_stack_on cs lv = true ->
+    forall u r, skipn (Z.to_nat (total_skip cs)) us = u :: r ->
+    stack_of out = u :: removelast r /\
+    (r <> [] -> stack_of out ++ [last r u] = skipn (Z.to_nat (total_skip cs)) us).
+  Proof.
+    intros Hc Hon u r E. rewrite out_eq. unfold expected_zap, expected. fold lv.
+    unfold cfg_stack_on in Hon. rewrite Hc, Hon, E. cbn [negb andb].
+    rewrite andb_false_r. cbn [stack_of e_stack]. unfold drop_last. split; [reflexivity|].
+    intros Hr. cbn [app]. f_equal. symmetry. apply app_removelast_last. exact Hr.
+  Qed.
+
+  Lemma stack_starts_at_caller_thm : core lv = true -> cfg_caller_on cs = true -> cfg_stack_on cs lv = true ->
+    hd_error (stack_of out) = caller_of out.
+  Proof.
+    intros Hc Hon Hs. rewrite out_eq. unfold expected_zap, expected. fold lv.
+    unfold cfg_caller_on in Hon. unfold cfg_stack_on in Hs. rewrite Hc, Hon, Hs. cbn [negb andb].
+    destruct (skipn _ us); reflexivity.
+  Qed.
+
+  (* a skip that runs past the end of the stack: no caller, no trace, and the failure is reported *)
+  Lemma past_the_end_thm : core lv = true -> cfg_caller_on cs = true ->
+    (length us <= Z.to_nat (total_skip cs))%nat ->
+    out = Entry {| e_caller := None; e_stack := []; e_err := true |}.
+  Proof.
+    intros Hc Hon Hlen. rewrite out_eq. unfold expected_zap, expected. fold lv.
+    unfold cfg_caller_on in Hon. rewrite Hc, Hon. cbn [negb andb].
+    rewrite skipn_all2 by exact Hlen. reflexivity.
+  Qed.
+End Corollaries.
+
+(* wrapper functions of any depth with a matching AddCallerSkip *)
+Lemma wrappers_thm : forall fuel core cs f lvl (ws : list frame) (u : frame) (rest : list frame) storage,
+  fe_sugared f = chain_kind cs -> total_skip cs = Z.of_nat (length ws) -> (1 <= storage)%nat ->
+  (length (ws ++ u :: rest) + 12 <= fuel)%nat -> hd_not_log (ws ++ u :: rest) = true ->
+  core (fe_level f lvl) = true -> cfg_caller_on cs = true ->
+  caller_of (log_via fuel f (apply_chain (HL (new_logger core)) cs) lvl (ws ++ u :: rest) storage) = Some u.
+Proof.
+  intros fuel core cs f lvl ws u rest storage Hk Ht Hst Hf Hus Hc Hon.
+  rewrite frame_thm; try assumption; [|lia].
+  rewrite Ht, Nat2Z.id. rewrite nth_error_app2 by lia. rewrite Nat.sub_diag. reflexivity.
+Qed.
+
+(* zapslog, in the property's words *)
+Lemma slog_frame_thm : forall fuel core os m slvl us storage,
+  0 <= hopts_skip os -> (1 <= storage)%nat -> (length us + 8 <= fuel)%nat ->
+  core (convertSlogLevel slvl) = true -> hcfg_caller false os = true ->
+  let out := slog_log slog_handle fuel (new_handler core os) m slvl us storage in
+  caller_of out = nth_error us (Z.to_nat (hopts_skip os)) /\
+  (stack_of out <> [] -> hcfg_stack 8 os <= slvl) /\
+  (hcfg_stack 8 os <= slvl -> stack_of out = removelast (skipn (Z.to_nat (hopts_skip os)) us)).
+Proof.
+  intros fuel core os m slvl us storage Hs Hst Hf Hc Hon out. unfold out.
+  rewrite slog_spec by assumption. unfold expected_slog. rewrite Hc, Hon. cbn [negb caller_of stack_of e_caller e_stack].
+  split; [apply hd_skipn_nth|]. split.
+  - destruct (hcfg_stack 8 os <=? slvl) eqn:E; [intros _; apply Z.leb_le; exact E|intros H; congruence].
+  - intros H. apply Z.leb_le in H. rewrite H. reflexivity.
+Qed.
+
+(* the std-log bridge for ANY list of log-package frames between the writer and the user *)
+Lemma std_any_depth_thm : forall fuel core cs lv (lf us : list frame) storage l,
+  apply_chain (HL (new_logger core)) cs = HL l ->
+  0 <= total_skip cs -> (1 <= storage)%nat -> (length lf + length us + 6 <= fuel)%nat ->
+  forallb is_log_frame lf = true -> (length lf < stdLogScan)%nat -> hd_not_log us = true ->
+  log_std fuel l lv lf us storage
+  = expected (core lv) (cfg_caller_on cs) (cfg_stack_on cs lv) (total_skip cs) us.
+Proof.
+  intros fuel core cs lv lf us storage l Hl Htot Hst Hfuel Hlf Hlen Hus.
+  pose proof (apply_chain_kind cs (HL (new_logger core))) as Hk.
+  destruct (apply_chain_state cs (HL (new_logger core))) as [H1 [H2 [H3 H4]]].
+  cbn zeta in H1. rewrite Hl in Hk, H1, H2, H3, H4.
+  cbn [is_sugared base_of new_logger callerSkip addCaller addStack coreEn kind_delta] in Hk, H1, H2, H3, H4.
+  rewrite log_std_spec; try assumption; [|lia].
+  rewrite H1, H2, H3, H4. unfold cfg_caller_on, cfg_stack_on. f_equal. lia.
+Qed.
+
+(* ------------------------------------------------------------------ the behaviour before the fixes *)
+(* std-log bridge as found: log.Panic through NewStdLog names the log package as the caller *)
+Lemma std_orig_refuted :
+  exists f us, fe_sugared f = chain_kind [CWithOptions [OWithCaller true]] /\
+    log_via_orig 100 f (apply_chain (HL (new_logger (en_level DebugLevel))) [CWithOptions [OWithCaller true]]) 0 us initStorage
+    <> expected_zap (en_level DebugLevel) [CWithOptions [OWithCaller true]] f 0 us.
+Proof.
+  exists (FeStd 0 4), [FU 62; FU 2; FU 3]. split; [reflexivity|]. vm_compute. discriminate.
+Qed.
+(* ... while Print (the only case zap's tests pin) is right *)
+Lemma std_orig_print_ok :
+  log_via_orig 100 (FeStd 0 0) (apply_chain (HL (new_logger (en_level DebugLevel))) [CWithOptions [OWithCaller true]]) 0 [FU 62; FU 2; FU 3] initStorage
+  = expected_zap (en_level DebugLevel) [CWithOptions [OWithCaller true]] (FeStd 0 0) 0 [FU 62; FU 2; FU 3].
+Proof. vm_compute. reflexivity. Qed.
+
+(* zapslog as found: WithCallerSkip moves the stack trace but not the caller *)
+Lemma slog_orig_refuted :
+  exists os us, 0 <= hopts_skip os /\
+    slog_log slog_handle_orig 100 (new_handler (en_level DebugLevel) os) 2 4 us initStorage
+    <> expected_slog (en_level DebugLevel) os 4 us.
+Proof.
+  exists [HWithCaller true; HWithCallerSkip 3], [FU 74; FU 2; FU 3; FU 4; FU 87; FU 11].
+  split; [vm_compute; discriminate|]. vm_compute. discriminate.
+Qed.
+
+(* ------------------------------------------------------------------ TrimmedPath *)
+Fixpoint has_byte (c : byte) (s : bytes) : bool :=
+  match s with [] => false | x :: r => Byte.eqb x c || has_byte c r end.
+
+Lemma byte_eqb_refl : forall b, Byte.eqb b b = true.
+Proof. intros b. apply byte_eqb_eq. reflexivity. Qed.
+
+Lemma split_on_nonempty : forall c s, split_on c s <> [].
+Proof.
+  intros c. induction s as [|x r IH]; cbn [split_on]; [discriminate|].
+  destruct (Byte.eqb x c); [discriminate|]. destruct (split_on c r); discriminate.
+Qed.
+
+Lemma last_index_split : forall c s,
+  match last_index_byte c s with
+  | None => split_on c s = [s] /\ has_byte c s = false
+  | Some i => exists a b, s = a ++ c :: b /\ i = length a /\ has_byte c b = false
+                          /\ split_on c s = split_on c a ++ [b]
+  end.
+Proof.
+  intros c. induction s as [|x r IH]; [cbn; auto|].
+  cbn [last_index_byte]. destruct (last_index_byte c r) as [i|].
+  - destruct IH as [a [b [Hs [Hi [Hb Hsp]]]]]. exists (x :: a), b. subst r. repeat split.
+    + cbn [length]. lia.
+    + exact Hb.
+    + cbn [split_on app]. destruct (Byte.eqb x c) eqn:E.
+      * rewrite Hsp. reflexivity.
+      * rewrite Hsp. pose proof (split_on_nonempty c a) as Hne.
+        destruct (split_on c a) as [|seg segs]; [congruence|reflexivity].
+  - destruct IH as [Hsp Hb]. destruct (Byte.eqb x c) eqn:E.
+    + apply byte_eqb_eq in E. subst x. exists [], r. repeat split; try assumption.
+      cbn [split_on]. rewrite byte_eqb_refl. rewrite Hsp. reflexivity.
+    + split.
+      * cbn [split_on]. rewrite E, Hsp. reflexivity.
+      * cbn [has_byte]. rewrite E, Hb. reflexivity.
+Qed.
+
+Lemma last_two_snoc2 : forall (xs : list bytes) a b, xs <> [] -> last_two (xs ++ [a; b]) = Some (a, b).
+Proof.
+  intros xs a b H. unfold last_two. rewrite rev_app_distr. cbn [rev app].
+  destruct (rev xs) as [|y ys] eqn:E; [|reflexivity].
+  apply (f_equal (@rev bytes)) in E. rewrite rev_involutive in E. cbn in E. congruence.
+Qed.
+
+Lemma trimmed_path_spec : forall d file lt, trimmed_path d file lt = trimmed_spec d file lt.
+Proof.
+  intros d file lt. unfold trimmed_path, trimmed_spec. destruct d; cbn [negb]; [|reflexivity].
+  pose proof (last_index_split slash file) as H1.
+  destruct (last_index_byte slash file) as [idx|].
+  - destruct H1 as [a [b [Hs [Hi [Hb Hsp]]]]]. subst file idx.
+    rewrite firstn_app, Nat.sub_diag, firstn_all. cbn [firstn]. rewrite app_nil_r.
+    pose proof (last_index_split slash a) as H2.
+    destruct (last_index_byte slash a) as [idx2|].
+    + destruct H2 as [a' [b' [Hs' [Hi' [Hb' Hsp']]]]]. subst a idx2.
+      rewrite Hsp, Hsp'.
+      replace ((split_on slash a' ++ [b']) ++ [b]) with (split_on slash a' ++ [b'; b])
+        by (rewrite <- app_assoc; reflexivity).
+      rewrite last_two_snoc2 by apply split_on_nonempty.
+      replace ((a' ++ slash :: b') ++ slash :: b) with ((a' ++ [slash]) ++ b' ++ slash :: b)
+        by (rewrite <- !app_assoc; reflexivity).
+      replace (S (length a')) with (length (a' ++ [slash])) by (rewrite app_length; cbn; lia).
+      rewrite skipn_app_exact. rewrite <- app_assoc. reflexivity.
+    + destruct H2 as [Hsp' _]. rewrite Hsp, Hsp'. reflexivity.
+  - destruct H1 as [Hsp _]. rewrite Hsp. reflexivity.
+Qed.
+
+(* in words: with at least two separators the result is  <leaf dir>/<file>:<line> *)
+Lemma trimmed_path_leaf : forall pre dir base lt,
+  has_byte slash dir = false -> has_byte slash base = false ->
+  trimmed_path true (pre ++ slash :: dir ++ slash :: base) lt = dir ++ slash :: base ++ colon :: lt.
+Proof.
+  intros pre dir base lt Hd Hb. unfold trimmed_path. cbn [negb].
+  assert (L : forall s t, has_byte slash t = false -> last_index_byte slash (s ++ slash :: t) = Some (length s)).
+  { induction s as [|x s IH]; intros t Ht.
+    - cbn [app last_index_byte length]. 
+      assert (N : last_index_byte slash t = None).
+      { induction t as [|y t IHt]; [reflexivity|]. cbn in Ht. apply orb_false_iff in Ht. destruct Ht as [E Ht].
+        cbn [last_index_byte]. rewrite (IHt Ht), E. reflexivity. }
+      rewrite N, byte_eqb_refl. reflexivity.
+    - cbn [app last_index_byte length]. rewrite (IH t Ht). reflexivity. }
+  replace (pre ++ slash :: dir ++ slash :: base) with ((pre ++ slash :: dir) ++ slash :: base)
+    by (rewrite <- app_assoc; reflexivity).
+  rewrite (L (pre ++ slash :: dir) base Hb).
+  rewrite firstn_app, Nat.sub_diag, firstn_all. cbn [firstn]. rewrite app_nil_r.
+  rewrite (L pre dir Hd).
+  rewrite <- app_assoc. cbn [app].
+  replace (S (length pre)) with (length (pre ++ [slash])) by (rewrite app_length; cbn; lia).
+  replace (pre ++ slash :: dir ++ slash :: base) with ((pre ++ [slash]) ++ dir ++ slash :: base)
+    by (rewrite <- app_assoc; reflexivity).
+  rewrite skipn_app_exact. rewrite <- app_assoc. reflexivity.
+Qed.
+
+(* ------------------------------------------------------------------ wire *)
+Lemma sx_eqb_refl s : sx_eqb s s = true.
+Proof.
+  revert s. fix IH 1. intros [z|b|l]; cbn.
+  - apply Z.eqb_refl.
+  - now apply bytes_eqb_eq.
+  - induction l as [|a r IHr]; [reflexivity|]. now rewrite IH, IHr.
+Qed.
+
+Lemma dec_us_user : forall s, hd_not_log (dec_us s) = true.
+Proof. intros s. unfold dec_us. destruct (sx_l s); reflexivity. Qed.
+
+Theorem spec_model : forall i, wf i = true -> spec i (model i) = true.
+Proof.
+  intros i Hwf. unfold spec, model, wf in *.
+  destruct (sx_z (sx_nth i 0)) as [|p|p].
+  - apply andb_true_iff in Hwf. destruct Hwf as [Hk Ht].
+    apply Bool.eqb_prop in Hk. apply Z.leb_le in Ht.
+    rewrite log_via_spec.
+    + apply sx_eqb_refl.
+    + exact Hk.
+    + exact Ht.
+    + unfold initStorage. lia.
+    + unfold fuel_for. lia.
+    + apply dec_us_user.
+  - destruct p; try (rewrite trimmed_path_spec; apply sx_eqb_refl).
+    apply Z.leb_le in Hwf.
+    rewrite slog_spec.
+    + apply sx_eqb_refl.
+    + exact Hwf.
+    + unfold initStorage. lia.
+    + unfold fuel_for. lia.
+  - rewrite trimmed_path_spec. apply sx_eqb_refl.
+Qed.
